@@ -137,3 +137,15 @@ PROPS["C02"] = {
     "quick": {"configs": ["default", "arduino"], "cases": 500000, "floor_evaluations": 800000, "floor_nontrivial": 200000},
     "thorough": {"configs": ["default", "arduino"], "cases": 3000000, "floor_evaluations": 2000000},
 }
+
+PROPS["C08"] = {
+    "title": "serializeMsgPack emits one conforming MessagePack object equal to the document",
+    "src": "c08.cpp",
+    "level": "exploration",
+    "technique": "property-based testing against an independent MessagePack decoder, with sizes and magnitudes concentrated on every header boundary; all destinations and buffer capacities; large-item cases (65535/65536)",
+    "rule": "case = document built through the API from a generated value whose integers sit within 1 of every header boundary (fixint/8/16/32/64, both signs), strings of 30-33 / 254-257 bytes, containers of 14-17 elements, floats that are integral / float-representable / non-finite, bin and ext through MsgPackBinary/MsgPackExtension and serialized(); sweep: linked strings of 65534-70000 bytes, copied string of 65535, arrays and objects of 65535/65536; non-trivial = the value contains an item within 1 of a header boundary; distinct = hash of the value rendering",
+    "level_text": "Exploration: the reference decoder must accept the output as exactly one object consuming all bytes and denoting the observed document (integers exact, floats bit-exact or an equal integer when integral, bin/ext verbatim); count == bytes == measureMsgPack on every destination; prefix-only semantics for every capacity.",
+    "level_note": "Trusts ref/msgpack_ref.hpp (written from the specification). Minimality of the chosen header width is not demanded (the property asks for a conforming encoding).",
+    "quick": {"configs": ["default", "arduino"], "cases": 400000, "sweep": True, "floor_evaluations": 500000, "floor_nontrivial": 100000},
+    "thorough": {"configs": ["default", "arduino"], "cases": 5000000, "sweep": True, "floor_evaluations": 3000000},
+}
